@@ -10,4 +10,5 @@ def bounded_jobs(tier, seed):
     return [
         bj('rcc.b_C17', 'run_batch', tier, seed),
         bj('rcc.b_C17', 'run_hostile', tier, seed),
+        bj('rcc.b_C17', 'run_shapes', tier, seed),
     ]
